@@ -34,6 +34,18 @@ requires of the history account for (a cycle that is walked until the host's
 stack ends).  The additions to the shared observer are installed into
 harness/c10.py by install() below.
 
+Round 4: the module object as a snapshot made by every qualified require.  Every
+generated module has a public definition that is REASSIGNED (`def m_cnt = 0`,
+`m_cnt = m_cnt + 1` in m_bump; SessionOps.NCnt).  The spec carries in every
+module object (and in every imported m_cnt) the value the definition had when
+the require bound it (Session.NowVars / SessionOps.ModOf, BoundValue); the
+observer reads the member directly, `n->m_cnt`, through the interpreter after
+every command.  Importer command mset (`n->m_cnt = 5`, a member assignment on
+the importer's own module object; Session.C11Mem): it may show in that object
+only, not in an object another require binds.  Deviation ModAtLoad (cfg
+Modules_devsnap: the object is made once and handed out again) must give TLC a
+counterexample of BindsExactly.
+
 Binding A: every generated module graph is written to disk as .ckl files (a
 load counter appended at the top of every file, private mutable state with
 public bump/get functions, probes that try to read an importer variable at load
@@ -47,6 +59,7 @@ counters, and that a cycle gives a runtime error.
 """
 import json
 import random
+import re
 import time
 
 from .common import MachineryError
@@ -76,7 +89,8 @@ def vals_source(m, st):
             f"def {m}_strv = '{'s' * (6 + a)}';",
             f"def {m}_null = NULL;",
             f"def {m}_bool = {'FALSE' if a else 'TRUE'};",
-            f"def {m}_zero = 0;"]
+            f"def {m}_zero = 0;",
+            f"def {m}_cnt = 0;"]          # round 4: reassigned by m_bump (SessionOps.NCnt)
 
 
 def module_source(m, rec):
@@ -92,7 +106,13 @@ def module_source(m, rec):
     full = _ORIG["module_source"](m, dict(rec, body=body[1:]))
     if not full.startswith(pre):
         raise MachineryError("module text does not start with the prelude")
-    return pre + "\n".join(vals_source(m, vals[0])) + "\n" + full[len(pre):]
+    rest = full[len(pre):]
+    # round 4: m_bump reassigns the public definition m_cnt next to the private state
+    step = f"_{m}_st[0] = _{m}_st[0] + 1;"
+    if pre.count(step) != 1:
+        raise MachineryError("the prelude's bump function is not what it was")
+    pre = pre.replace(step, f"{step} {m}_cnt = {m}_cnt + 1;")
+    return pre + "\n".join(vals_source(m, vals[0])) + "\n" + rest
 
 
 def spelled(d):
@@ -132,12 +152,29 @@ def bump_expr(form, d):
     return f"shared->{d}_bump()" if form == "asx" else _ORIG["bump_expr"](form, d)
 
 
+def cmd_source(c, binding=None):
+    """Round 4: the importer command mset, `n->d_cnt = 5` (binding = the spec's
+    abstract value of n: a module object of d); everything else as in c10."""
+    if c["op"] != "mset":
+        return _ORIG["cmd_source"](c, binding)
+    if not binding or not binding.startswith("mod:"):
+        raise MachineryError("mset on a name that holds no module object")
+    return f"{c['n']}->{binding.split(':')[1]}_cnt = {c['v']}"
+
+
+CNT_MEMBER = re.compile(r"^\w+->\w+_cnt$")
 VAL_KINDS = {"objv", "lstv", "mapv", "strv", "null", "bool"}
 
 
 def render_value(sess, i, expr, v, want_kind):
     """The kinds of value the statement `vals` defines (spec: RenderSym, arm
     "vals"); everything else as in c10."""
+    if want_kind == "int" and CNT_MEMBER.match(expr):
+        # round 4: the reassigned definition, read as the importer reads it: n->d_cnt
+        o, _ = sess.run(i, expr)
+        if o[0] == "val" and o[1] == "int":
+            return ("int", o[3])
+        return ("read-failed", 0, o)
     if want_kind not in VAL_KINDS:
         return _ORIG["render_value"](sess, i, expr, v, want_kind)
     p = tagged(to_py(v))
@@ -169,12 +206,62 @@ def observe(sess, i, want, names_only=False, soft=()):
     diffs = _ORIG["observe"](sess, i, want, names_only=names_only, soft=soft)
     it = sess.it.get(i)
     smap = S.scope_map(it.environment) if it is not None else None
+    if it is not None and not names_only and want != []:
+        diffs = snapshot_members(sess, i, want, diffs, it, smap)
     if smap is not None:
         exp = set(want) if want != [] else set()
         for n in sorted((set(smap) & set(sess.base_names)) - exp):
             diffs.append(("names", f"unexpected name {n} in the scope of {i} (a name of the base environment, "
                                    f"now bound in the session scope as well)"))
     return diffs
+
+
+def snapshot_members(sess, i, want, diffs, it, smap):
+    """Round 4.  (a) Two module objects of one module that were bound at
+    different moments legitimately differ in the member d_cnt (each holds the
+    value the definition had when its require bound it, or what the importer
+    assigned to it): c10's `instance` comparison - the members of all module
+    objects of one module are the very same objects - is redone here without
+    that member.  (b) A module object whose d_cnt shows the module's PRESENT
+    value where the spec predicts the value at the time of the binding is an
+    object that follows the module; it still exposes the module's public
+    definitions, so it only drifts."""
+    out = [d for d in diffs if d[0] != "instance"]
+    relabel = {}
+    shown = {}
+    for n in sorted(want):
+        w = want[n]
+        if w["v"]["k"] != "mod" or w.get("open"):
+            if w["v"]["k"] == "mod":
+                shown.setdefault(w.get("of", ""), []).append((n, None))
+            continue
+        of = w.get("of", "")
+        shown.setdefault(of, []).append((n, None))
+        mem = w["mem"] if w["mem"] != [] else {}
+        k = of + "_cnt"
+        if k in mem and "live" in w and mem[k]["r"] != w["live"]:
+            relabel[f"{i}: {n}->{k} is {('int', w['live'])} but should be {(mem[k]['k'], mem[k]['r'])}"] = n
+    out = [(("drift:liveobject", what) if cat == "value" and what in relabel else (cat, what)) for cat, what in out]
+    for of, names in sorted(shown.items()):
+        objs = []
+        for n, _ in names:
+            try:
+                v = S.peek(it, smap, n)
+            except Exception:  # noqa: BLE001
+                continue        # reported by c10's observe as a value that cannot be read
+            if isinstance(v, S.V.ValueObject) and getattr(v, "isModule", False) and isinstance(v.value, dict):
+                objs.append((n, v))
+        if len(objs) < 2:
+            continue
+        n0, v0 = objs[0]
+        for n1, v1 in objs[1:]:
+            if set(v0.value.keys()) != set(v1.value.keys()):
+                continue            # reported as members
+            other = sorted(k for k in v0.value if k != of + "_cnt" and v0.value[k] is not v1.value[k])
+            if other:
+                out.append(("instance", f"{i}: module objects {n0} and {n1} of module {of} do not share "
+                                        f"one instance: members {other[:3]} are different objects"))
+    return out
 
 
 def diagnostics(sess, i, key, loadcap):
@@ -292,7 +379,7 @@ def run_walk_job(job, d):
 
 
 def install():
-    for name, fn in (("module_source", module_source), ("require_src", require_src),
+    for name, fn in (("module_source", module_source), ("require_src", require_src), ("cmd_source", cmd_source),
                      ("render_value", render_value), ("observe", observe), ("diagnostics", diagnostics),
                      ("run_walk_job", run_walk_job), ("bind_name", bind_name), ("get_expr", get_expr),
                      ("bump_expr", bump_expr)):
@@ -445,7 +532,7 @@ def runner_program(g, sid, trie):
 
 def runner_expect(obs):
     """Lines the program prints after its commands, from the predicted scope."""
-    calls = []
+    calls, reads = [], []
     for nm in sorted(obs):
         w = obs[nm]
         if w["v"]["k"] == "call":
@@ -453,7 +540,11 @@ def runner_expect(obs):
         elif w["v"]["k"] == "mod":
             mem = w["mem"] if w["mem"] != [] else {}
             calls += [(f"{nm}->{k}", mem[k]["r"]) for k in sorted(mem) if mem[k]["k"] == "call"]
-    return sorted(n for n in obs if n != "secret"), calls
+            # round 4: the reassigned definition d_cnt, read directly from the module object
+            # (third entry: the module's present value, what an object that follows the module shows)
+            reads += [(f"{nm}->{k}", mem[k]["r"], w.get("live", mem[k]["r"])) for k in sorted(mem)
+                      if mem[k]["k"] == "int" and k == w.get("of", "") + "_cnt"]
+    return sorted(n for n in obs if n != "secret"), calls, reads
 
 
 def runner(run, g, fsdefs, roots, rng, info, count):
@@ -494,10 +585,11 @@ def runner(run, g, fsdefs, roots, rng, info, count):
                                       if not l.startswith("append(loadlog")))
             cmds, failing, cur = runner_program(g, sid, tries[(sid, fi)])
             obs = g.obs[cur]["i1"] if g.obs[cur]["i1"] != [] else {}
-            names, calls = runner_expect(obs)
+            names, calls, reads = runner_expect(obs)
             main = ["def secret = 1;", "def base_names = set(ls());"] + [c + ";" for c in cmds]
             main.append("println('NAMES ' + string(set(ls()) - base_names));")
             main += [f"println('CALL {e} ' + string({e}()));" for e, _ in calls]
+            main += [f"println('READ {e} ' + string({e}));" for e, _, _ in reads]
             if failing:
                 main.append(failing[0] + ";")
             main.append("println('END');")
@@ -513,18 +605,22 @@ def runner(run, g, fsdefs, roots, rng, info, count):
             ran += 1
             gotn = None
             gotc = []
+            gotr = []
             other = []
             for l in lines:
                 if l.startswith("NAMES "):
                     gotn = sorted(set(re.findall(r"'(\w+)'", l)) - {"base_names"})
                 elif l.startswith("CALL "):
                     gotc.append(tuple(l.split(" ")[1:3]))
+                elif l.startswith("READ "):
+                    gotr.append(tuple(l.split(" ")[1:3]))
                 elif l != "END":
                     other.append(l)
             hist = " ; ".join(cmds + ([failing[0]] if failing else []))
             fsk = S.gen_label(fsdefs[fi]["g"])
             case = {"kind": "runner", "fs": fsdefs[fi], "main": main, "names": names,
-                    "calls": [[e, r] for e, r in calls], "output": lines[-12:]}
+                    "calls": [[e, r] for e, r in calls], "reads": [[e, r] for e, r, _ in reads],
+                    "output": lines[-12:]}
             finds = []
             if gotn is None:
                 finds.append(("outcome-cls", f"reported {other[:1]} before the successful commands were through"))
@@ -533,6 +629,15 @@ def runner(run, g, fsdefs, roots, rng, info, count):
                     finds.append(("names", f"gained the names {gotn}, the spec predicts {names}"))
                 if gotc != [(e, str(r)) for e, r in calls]:
                     finds.append(("value", f"printed the counters {gotc}, the spec predicts {calls}"))
+                if gotr != [(e, str(r)) for e, r, _ in reads]:
+                    # each read shows the value at the binding, or (drift) the module's present value
+                    if ([e for e, _ in gotr] == [e for e, _, _ in reads]
+                            and all(x in (str(r), str(lv)) for (_, x), (_, r, lv) in zip(gotr, reads))):
+                        run.drift("runner:liveobject", {"history": hist, "got": gotr,
+                                                        "spec": [[e, r] for e, r, _ in reads]})
+                    else:
+                        finds.append(("value", f"read the members {gotr}, the spec predicts "
+                                               f"{[(e, r) for e, r, _ in reads]}"))
                 ended = "END" in lines
                 if failing is None and not ended:
                     finds.append(("outcome-cls", f"reported {other[:1]}, the spec predicts success"))
@@ -578,6 +683,8 @@ def replay_runner(run, case):
 
 
 DEVIATIONS = {
+    "Modules_devsnap": "ModObj <- ModAtLoad (the module object is made once and handed out by every later "
+                       "qualified require)",
     "Modules_devchain": "ImportScope <- ImportScopeChain (an import list resolved through the module's "
                         "environment chain)",
     "Modules_devkeep": "Rebind <- RebindKeep (a require keeps what the importer's scope already holds)",
@@ -587,7 +694,8 @@ DEVIATIONS = {
 def check_deviations(run, ahead, info):
     """Round 3: with a named deviation substituted TLC must find a
     counterexample of BindsExactly - otherwise the property says nothing
-    about listed symbols the module does not have / about names that collide."""
+    about listed symbols the module does not have / about names that collide
+    (round 4: / about WHEN the definitions a module object exposes are taken)."""
     for cfg, what in DEVIATIONS.items():
         res = ahead.take(cfg)
         run.add_tlc(res, f"Session/c11 with the deviation {what}: counterexample expected")
@@ -722,6 +830,14 @@ def run_checks(run, quick, rng, info, ahead, sim_kw):
         "`binds all public symbols` (the statement's only notion of private is the underscore)",
         "command line runner: the generated module files are used without their load-log line (the runner "
         "offers no way to put a list into the base environment)",
+        "round 4: `exposing the module's public top-level definitions` is read as: the object a qualified require "
+        "binds shows every public definition with the value it has when THAT require binds (a reassigned "
+        "definition, m_cnt, is in every generated module); an object that shows the module's present value "
+        "later on (an object that follows the module) only drifts (drift:liveobject), a value older than the "
+        "binding or one that an importer assigned to ANOTHER object is a violation (value)",
+        "round 4: the member assignment n->m_cnt = 5 is issued only while no loaded module holds a module object "
+        "of that module in its own scope (`require mb unqualified` hands mb's own object on: one shared object the "
+        "statement does not speak about and the value-copying model does not follow)",
     ]
 
 
